@@ -20,7 +20,7 @@ RULE = (
     "geometry of default-constructed fields vs the documented one. field_struct: a binary integer field of a user "
     "subclass (two levels deep) whose class-level type table adds a 1-byte integer, sizes 1/2/4: the layout clauses "
     "(Spec.C02.holdsFieldBin) and the span bytes (int.to_bytes) are evaluated on the observation — the model has no "
-    "subclass tables; a fifth of all field objects in every check are instances of a do-nothing user sub-subclass; a tenth of the cases hand integers over as integral floats or numpy scalars (the same numbers). Every third target line of the single-field cases ends in TAB / LF / CR / NBSP / VT / FF instead of a letter. History: every fourth single-field case is run a second time, and a quarter of the line cases are run, on field objects that were already written before the observed write (one to three earlier writes of the SAME field object(s): onto a target of the other storage kind or of the same kind with another length, holding the identical value object / no value / an equal value assigned again; for lines through the same Line object with its storage switched by the setter or through another Line over the same field objects) — the model is asked about the observed write alone, since every write is bound by the property whatever the object served for before. 'fits' is decided by the Lean predicate "
+    "subclass tables; a fifth of all field objects in every check are instances of a do-nothing user sub-subclass; a tenth of the cases hand integers over as integral floats or numpy scalars (the same numbers). Every third target line of the single-field cases ends in TAB / LF / CR / NBSP / VT / FF instead of a letter. History: every fourth single-field case is run a second time, and a quarter of the line cases are run, on field objects that were already written before the observed write (one to three earlier writes of the SAME field object(s): onto a target of the other storage kind or of the same kind with another length, holding the identical value object / no value / an equal value assigned again; for lines through the same Line object with its storage switched by the setter or through another Line over the same field objects); in two fifths of these histories one of the earlier uses is a DELIMITED Line.write or Line.read (delimiter ; , or |) over the same field object(s), through another Line or through the very Line whose delimiter is then set back to None — the model is asked about the observed write alone, since every write is bound by the property whatever the object served for before. 'fits' is decided by the Lean predicate "
     "Spec.C02.fits; non-fitting cases are skipped (counted under verdicts.skip). non-trivial = field size > 0 and "
     "value not None; distinct by full case."
 )
@@ -66,10 +66,20 @@ def warm_field(f, case, v):
         elif h["value"] == "again":
             f.value = given(case, case["value"], case["field"]) if case["mode"] == "field" else codec.dec_val(case["value"])
         try:
-            f.write(codec.dec_data(h["line"]))
+            if h.get("delim"):
+                # the field served a delimited line (an export / import of the same record) before
+                from cfinterface.components.line import Line
+
+                dl = Line([f], delimiter=h["delim"])
+                if h.get("op") == "read":
+                    dl.read("7\n")
+                else:
+                    dl.write([f.value])
+            else:
+                f.write(codec.dec_data(h["line"]))
         except Exception:
             pass
-        if h["value"] == "none":
+        if h["value"] == "none" or h.get("op") == "read":
             f.value = v
 
 
@@ -89,17 +99,29 @@ def warm_line(fs, case, vals):
             hv = [given(case, v, fds[i] if i < len(fds) else {}) for i, v in enumerate(case["values"])][: len(vals)]
         else:
             hv = vals
+        dl = h.get("delim")  # a delimited step (text storage): the same fields serve a delimited line
         try:
             if h["how"] == "setter" and case.get("via") not in ("values_arg", "fields_setter"):
                 if keep is None:
-                    keep = Line(fs, storage=h["storage"])
+                    keep = Line(fs, storage=h["storage"], delimiter=dl)
                 else:
                     keep.storage = h["storage"]
-                keep.write(hv)
+                    keep.delimiter = dl
+                ln = keep
             else:
-                Line(fs, storage=h["storage"]).write(hv)
+                ln = Line(fs, storage=h["storage"], delimiter=dl)
+            if dl and h.get("op") == "read":
+                ln.read(dl.join(["7"] * len(fs)) + "\n")
+            else:
+                ln.write(hv)
         except Exception:
             pass
+        if dl and h.get("op") == "read":
+            # what was read is cleared again: the observed write starts from fields without a value
+            for f in fs:
+                f.value = None
+    if keep is not None:
+        keep.delimiter = None  # the observed write is positional
     return keep
 
 
@@ -108,9 +130,15 @@ def hist_text(case):
     if not hs:
         return ""
     if case["mode"] == "line":
-        steps = [f"a {h['storage'] or 'default'}-storage line write ({h['how']}, values: {h['values']})" for h in hs]
+        steps = [
+            (f"a line {h.get('op', 'write')} DELIMITED by {h['delim']!r} ({h['how']}, values: {h['values']})" if h.get("delim") else f"a {h['storage'] or 'default'}-storage line write ({h['how']}, values: {h['values']})")
+            for h in hs
+        ]
     else:
-        steps = [f"onto {show(h['line'])} (value: {h['value']})" for h in hs]
+        steps = [
+            (f"a one-field line {h.get('op', 'write')} DELIMITED by {h['delim']!r} (value: {h['value']})" if h.get("delim") else f"onto {show(h['line'])} (value: {h['value']})")
+            for h in hs
+        ]
     return " — observed on field object(s) already written before: " + "; then ".join(steps)
 
 
@@ -254,6 +282,8 @@ def features(case, obs):
     if m == "line":
         f += [f"storage={case['storage'] or 'default'}", f"nfields={len(case['fields'])}"]
     f.append(f"earlier_writes={len(case.get('hist') or [])}")
+    if any(h.get("delim") for h in case.get("hist") or []):
+        f.append("delimited_use_before")
     return f
 
 
@@ -451,7 +481,16 @@ def field_hist(c, i):
         m = rng.choice([n, n, (n + 5) % 15, c["field"]["start"] + c["field"]["size"] + 2, 0])
         tgt = {key: (mark + mark)[:m]}
         steps.append({"line": other_kind(tgt) if other else tgt, "value": rng.choice(["same", "same", "same", "none", "again"])})
+    delimited_step(steps, random.Random(i * 104729 + 5), {"line": {key: []}, "value": "same"})
     return {**c, "hist": steps}
+
+
+def delimited_step(steps, drng, base):
+    """in two fifths of the histories one more earlier use, at any place among the others: the field object(s)
+    took part in a delimited Line.write / Line.read (its own random stream: the other steps stay what they were)"""
+    if drng.random() < 0.4:
+        st = {**base, "delim": drng.choice([";", ",", "|"]), "op": drng.choice(["write", "write", "read"])}
+        steps.insert(drng.randrange(0, len(steps) + 1), st)
 
 
 def line_hist(c, rng):
@@ -462,6 +501,8 @@ def line_hist(c, rng):
         other = rng.random() < 0.75
         st = ("TEXT" if cur == "BINARY" else "BINARY") if other else cur
         steps.append({"storage": rng.choice(["", "TEXT"]) if st == "TEXT" else "BINARY", "values": rng.choice(["same", "same", "same", "none", "again"]), "how": rng.choice(["setter", "other_line"])})
+    drng = random.Random(rng.randrange(2**32))
+    delimited_step(steps, drng, {"storage": drng.choice(["", "TEXT"]), "values": drng.choice(["same", "same", "none", "again"]), "how": drng.choice(["setter", "other_line"])})
     return {**c, "hist": steps}
 
 
